@@ -80,6 +80,7 @@ type reqObs struct {
 	diag           []string
 	stats          string
 	apiErrs        []string
+	registered     bool // the request manager ran the outgoing-request hooks for it (it accepted the request)
 }
 
 func reqRun(cfg vsched.Config, cs reqCase) (*reqObs, *vsched.Sched) {
@@ -176,7 +177,22 @@ func reqRun(cfg vsched.Config, cs reqCase) (*reqObs, *vsched.Sched) {
 		}
 		vsched.Quiesce()
 		vsched.Mark()
-		res := q.Request(f, sp.ID, d.Root, sel, id)
+		// a cancellation that may land while the request call itself is in progress: its thread exists before the call
+		rctx, rcancel := context.WithCancel(f.Ctx)
+		q.GS.RegisterOutgoingRequestHook(func(p peer.ID, rd graphsync.RequestData, ha graphsync.OutgoingRequestHookActions) {
+			o.registered = true
+		})
+		if cs.Sched {
+			for _, a := range cs.Acts {
+				if a.K == "ctx-cancel-early" {
+					vsched.GoN("act-"+a.K, func() {
+						o.cancelIssued = true
+						rcancel()
+					})
+				}
+			}
+		}
+		res := q.RequestCtx(rctx, rcancel, sp.ID, d.Root, sel, id)
 		doAct := func(a rspAct) {
 			var err error
 			switch a.K {
@@ -233,7 +249,9 @@ func reqRun(cfg vsched.Config, cs reqCase) (*reqObs, *vsched.Sched) {
 			}
 			for _, a := range cs.Acts {
 				a := a
-				vsched.GoN("act-"+a.K, func() { doAct(a) })
+				if a.K != "ctx-cancel-early" {
+					vsched.GoN("act-"+a.K, func() { doAct(a) })
+				}
 			}
 			vsched.Quiesce()
 		} else {
@@ -342,6 +360,14 @@ func c04Judge(cs reqCase, o *reqObs) *core.Violation {
 			}
 		}
 		return false
+	}
+	if o.cancelIssued && !o.registered {
+		// the caller's context was done before the request manager accepted the request: there is no request,
+		// only the two (closed) channels
+		if !o.closed || o.newOnWire {
+			return v("cancelled-before-acceptance-yet-live", fmt.Sprintf("the context was cancelled before the request was accepted, yet closed=%v and requests on the wire %v", o.closed, o.wireReqs))
+		}
+		return nil
 	}
 	mustClose := (o.termDelivered || (o.cancelIssued && !o.cancelWhenDone)) && !o.pausedAtEnd
 	if mustClose && !o.closed {
@@ -481,7 +507,10 @@ func runC04(c *core.Ctx) {
 	var sc []reqCase
 	for _, st := range []graphsync.ResponseStatusCode{graphsync.RequestCompletedFull, graphsync.RequestFailedUnknown} {
 		for _, local := range []int{0, 1, 2} {
-			for _, as := range [][]rspAct{{{K: "ctx-cancel"}}, {{K: "api-cancel"}}, {{K: "api-pause"}}, nil} {
+			for _, as := range [][]rspAct{{{K: "ctx-cancel"}}, {{K: "api-cancel"}}, {{K: "api-pause"}}, nil, {{K: "ctx-cancel-early"}}} {
+				if len(as) == 1 && as[0].K == "ctx-cancel-early" && (local == 2 || st != graphsync.RequestCompletedFull) {
+					continue
+				}
 				tpos := 3 - local
 				if st != graphsync.RequestCompletedFull {
 					tpos = 1
